@@ -214,6 +214,8 @@ def check(c, ctx):
                         if (start.hour + i) % 24 != c["hmin"]:
                             probs.append("minimum at hour %d instead of %d" % ((start.hour + i) % 24, c["hmin"]))
             nontrivial = n >= 25 or start.hour != 0
+    except runner.Found:
+        raise
     except Exception as ex:
         probs.append("raised %s: %s" % (type(ex).__name__, str(ex)[:200]))
     for p in probs[:1]:
